@@ -102,10 +102,13 @@ pub fn run_case(case: &Value, out: &mut Obs) {
         }
     }
     let mut i = 0usize;
+    // Both connections and both sessions exist before anything else is traced and nothing is freed until the end, so
+    // that an address identifies one lock instance. (The server shares ONE SessionManager between all its transports.)
+    let mut conns: Vec<C> = Vec::new();
     for conn in 1..=2usize {
-        // session creation as its own tasks
         let mut c0 = srv.connect();
         let tr = Arc::new(RwLock::new(std::mem::replace(&mut c0.t, srv.server.new_transport())));
+        std::mem::forget(c0);
         let mut c = C { t: tr, conn_token: NodeId::null(), handle: 1, sub: 0, item: 0 };
         {
             let t = c.t.clone();
@@ -147,6 +150,10 @@ pub fn run_case(case: &Value, out: &mut Obs) {
             };
             let _ = c.call(req.into());
         });
+        conns.push(c);
+    }
+    for conn in 1..=2usize {
+        let c = &mut conns[conn - 1];
         let rv = |n: i64| ReadValueId { node_id: node(n), attribute_id: AttributeId::Value as u32, index_range: UAString::null(), data_encoding: QualifiedName::null() };
         macro_rules! svc {
             ($name:expr, $req:expr) => {{
@@ -220,23 +227,22 @@ pub fn run_case(case: &Value, out: &mut Obs) {
         svc!("HistoryRead", |h| HistoryReadRequest { request_header: h, history_read_details: ExtensionObject::null(), timestamps_to_return: TimestampsToReturn::Both, release_continuation_points: false, nodes_to_read: Some(vec![HistoryReadValueId { node_id: node(1), index_range: UAString::null(), data_encoding: QualifiedName::null(), continuation_point: ByteString::null() }]) });
         svc!("DeleteMonitoredItems", |h| DeleteMonitoredItemsRequest { request_header: h, subscription_id: sub, monitored_item_ids: Some(vec![item]) });
         svc!("DeleteSubscriptions", |h| DeleteSubscriptionsRequest { request_header: h, subscription_ids: Some(vec![sub]) });
-        svc!("CloseSession", |h| CloseSessionRequest { request_header: h, delete_subscriptions: true });
-        // a second session so that the teardown has something to clear
-        {
-            let t = c.t.clone();
-            task(out, &cid, &mut i, "Teardown", conn, || {
-                let mut t = opcua::trace_write_lock!(t);
-                t.finish(StatusCode::BadConnectionClosed);
-            });
-        }
-        let mut c2 = open(&srv);
-        {
-            let t = c2.t.clone();
-            task(out, &cid, &mut i, "TeardownWithSession", conn, || {
-                let mut t = opcua::trace_write_lock!(t);
-                t.finish(StatusCode::BadConnectionClosed);
-            });
-        }
-        let _ = &mut c2;
     }
+    // closing a session and tearing a connection down come last (they free objects)
+    {
+        let c = &mut conns[0];
+        let h = c.header();
+        let req: SupportedMessage = CloseSessionRequest { request_header: h, delete_subscriptions: true }.into();
+        task(out, &cid, &mut i, "CloseSession", 1, || {
+            let _ = c.call(req);
+        });
+        let t = c.t.clone();
+        task(out, &cid, &mut i, "Teardown", 1, || {
+            // connection 1 has no session of its own any more; the shared session manager still holds connection 2's
+            let mut t = opcua::trace_write_lock!(t);
+            t.finish(StatusCode::BadConnectionClosed);
+        });
+    }
+    std::mem::forget(conns);
+    std::mem::forget(srv);
 }
